@@ -467,5 +467,7 @@ func (s SyscallWithConditions) Assemble(p *Program, action Label) {
 		}
 		p.SetLabel(noMatch)
 	}
+	// The accumulator holds an argument word now, the checks that follow need the syscall number again.
+	p.instructions = append(p.instructions, bpf.LoadAbsolute{Off: syscallNumOffset, Size: sizeOfUint32})
 	p.SetLabel(nextSyscall)
 }
